@@ -34,6 +34,8 @@ def Q(s):
 
 
 def fl(s):
+    if s == "inf":
+        return float("inf")        # an unlimited capacity (C16 only: the model's numbers are rationals)
     return float(Fraction(s))
 
 
@@ -92,26 +94,75 @@ def set_ranks(case):
             _RANK["comp"]["c%d" % i] = r
 
 
+def apply_ranks(b):
+    """the rank tables for the IDs the built project actually has (ID schemes "num" / "uuid")"""
+    case = b.case
+    if case.get("ids") is None:
+        return
+    for key, kind, tab in (("rank", "t", "task"), ("crank", "c", "comp")):
+        rk = case.get(key)
+        if rk is not None:
+            for i, r in enumerate(rk):
+                _RANK[tab][b.ids[kind][i]] = r
+
+
 # ------------------------------------------------------------------ build
 class Built:
     pass
 
 
+OMIT = object()
+REG = {}        # (kind, ID) -> position in the owning list, for the ID schemes that are not "<kind><position>"
+
+
+def make_ids(case):
+    """the ID of every entity of a case.  pDESy never inspects an ID, it only compares them:
+       default   "t3", "c0", "team1", "w2", "f2", "wp0"   (same_ids: team i = "wp<i>", facility i = "w<i>")
+       "num"     plain ints 0, 1, 2, ... per class (what a numbered model uses; 0 is falsy; JSON keeps ints)
+       "uuid"    tasks and components built WITHOUT an ID (the library's default, a fresh uuid4 string per
+                 construction); the organisation's entities get uuid4 strings from the harness because
+                 workers / tasks refer to them by ID at construction time"""
+    nT, nC = len(case["tasks"]), len(case.get("comps", []))
+    nTeam, nWP = len(case.get("teams", [])), len(case.get("wps", []))
+    nW = sum(len(tm["workers"]) for tm in case.get("teams", []))
+    nF = sum(len(wp.get("facs", [])) for wp in case.get("wps", []))
+    sch = case.get("ids")
+    if sch == "num":
+        return {"t": list(range(nT)), "c": list(range(nC)), "team": list(range(nTeam)), "wp": list(range(nWP)),
+                "w": list(range(nW)), "f": list(range(nF))}
+    if sch == "uuid":
+        import uuid
+
+        def u(n):
+            return [str(uuid.uuid4()) for _ in range(n)]
+        return {"t": [OMIT] * nT, "c": [OMIT] * nC, "team": u(nTeam), "wp": u(nWP), "w": u(nW), "f": u(nF)}
+    same = case.get("same_ids")
+    return {"t": ["t%d" % i for i in range(nT)], "c": ["c%d" % i for i in range(nC)],
+            "team": [("wp%d" if same else "team%d") % i for i in range(nTeam)], "wp": ["wp%d" % i for i in range(nWP)],
+            "w": ["w%d" % i for i in range(nW)], "f": [("w%d" if same else "f%d") % i for i in range(nF)]}
+
+
+def _idkw(x):
+    return {} if x is OMIT else {"ID": x}
+
+
 def build(case):
     b = Built()
     b.case = case
+    I = make_ids(case)
+    special = case.get("ids") is not None
     tasks = []
     for i, t in enumerate(case["tasks"]):
         kw = dict(
-            name="n%d" % t["name"], ID="t%d" % i,
+            name="n%d" % t["name"], **_idkw(I["t"][i]),
             default_work_amount=fl(t["work"]),
             work_amount_progress_of_unit_step_time=fl(t.get("rate", "1")),
             need_facility=bool(t.get("need_fac", False)),
             default_progress=fl(t.get("progress", "0")),
             due_time=t.get("due", -1),
             auto_task=bool(t.get("auto", False)),
-            fixing_allocating_worker_id_list=(None if t.get("fixw") is None else ["w%d" % j for j in t["fixw"]]),
-            fixing_allocating_facility_id_list=(None if t.get("fixf") is None else [("w%d" if case.get("same_ids") else "f%d") % j for j in t["fixf"]]),
+            fixing_allocating_worker_id_list=(None if t.get("fixw") is None else [I["w"][j] for j in t["fixw"]]),
+            fixing_allocating_facility_id_list=(None if t.get("fixf") is None else [I["f"][j] for j in t["fixf"]]),
             workplace_priority_rule=(int(t.get("prule", 0)) if case.get("int_rules") else WorkplacePriorityRuleMode(t.get("prule", 0))),
             worker_priority_rule=(int(t.get("wrule", -1)) if case.get("int_rules") else ResourcePriorityRuleMode(t.get("wrule", -1))),
             facility_priority_rule=(int(t.get("frule", 0)) if case.get("int_rules") else ResourcePriorityRuleMode(t.get("frule", 0))),
@@ -120,8 +171,22 @@ def build(case):
             obj = BaseSubProjectTask(**kw)
         else:
             obj = BaseTask(**kw)
+        if special:
+            I["t"][i] = obj.ID
+            if case.get("rank") is not None:
+                _RANK["task"][obj.ID] = case["rank"][i]
         tasks.append(obj)
-    for (p, s, k) in case.get("edges", []):
+    ext = case.get("builder") == "extend"       # the model wired with the extend_* / add_* / set_* builder methods
+    if ext:
+        runs = []                                # consecutive links into one task with one kind: one extend call
+        for (p, s, k) in case.get("edges", []):
+            if runs and runs[-1][0] == s and runs[-1][1] == k:
+                runs[-1][2].append(tasks[p])
+            else:
+                runs.append((s, k, [tasks[p]]))
+        for (s, k, preds) in runs:
+            tasks[s].extend_input_task_list(preds, task_dependency_mode=(int(k) if case.get("int_deps") else BaseTaskDependency(k)))
+    for (p, s, k) in ([] if ext else case.get("edges", [])):
         # the dependency kind as an enum member or as the plain int the JSON format stores
         tasks[s].append_input_task(tasks[p], task_dependency_mode=(int(k) if case.get("int_deps") else BaseTaskDependency(k)))
     for (p, s_, k) in case.get("edges_in", []):
@@ -129,35 +194,56 @@ def build(case):
         tasks[s_].input_task_list.append([tasks[p], BaseTaskDependency(k)])
     comps = []
     for i, c in enumerate(case.get("comps", [])):
-        comps.append(BaseComponent("cn%d" % i, ID="c%d" % i, space_size=fl(c.get("size", "1"))))
+        comps.append(BaseComponent("cn%d" % i, space_size=fl(c.get("size", "1")), **_idkw(I["c"][i])))
+        if special:
+            I["c"][i] = comps[-1].ID
+            if case.get("crank") is not None:
+                _RANK["comp"][comps[-1].ID] = case["crank"][i]
     for i, c in enumerate(case.get("comps", [])):
+        if ext:
+            comps[i].extend_child_component_list([comps[ch] for ch in c.get("children", [])])
+            continue
         for ch in c.get("children", []):
             comps[i].append_child_component(comps[ch])
+    b.ghosts = []
+    for i, c in enumerate(case.get("comps", [])):
+        if c.get("ghost_parent"):
+            # a parent assembly that is not registered in this product (it belongs to another product, say)
+            g = BaseComponent("ghost%d" % i, ID="ghost%d" % i)
+            g.append_child_component(comps[i])
+            b.ghosts.append(g)
     for i, t in enumerate(case["tasks"]):
         if t.get("comp") is not None:
-            comps[t["comp"]].append_targeted_task(tasks[i])
+            if ext:
+                comps[t["comp"]].extend_targeted_task_list([tasks[i]])
+            else:
+                comps[t["comp"]].append_targeted_task(tasks[i])
     for ci, c in enumerate(case.get("comps", [])):
         for i in c.get("extra_tasks", []):
             # listed by the component only: BaseComponent(targeted_task_list=[...]) sets no back reference
             comps[ci].targeted_task_list.append(tasks[i])
     workers, teams = [], []
     # nothing forbids a team and a workplace with the same ID string: with same_ids team i is called "wp<i>"
-    tid_fmt = "wp%d" if case.get("same_ids") else "team%d"
     for ti, tm in enumerate(case.get("teams", [])):
         ws = []
         for w in tm["workers"]:
             gi = len(workers)
             wk = BaseWorker(
-                "wn%d" % w.get("name", gi), ID="w%d" % gi, team_id=(None if case.get("adopt_ids") else tid_fmt % ti),
+                "wn%d" % w.get("name", gi), ID=I["w"][gi], team_id=(None if case.get("adopt_ids") else I["team"][ti]),
                 cost_per_time=fl(w.get("cost", "0")), solo_working=bool(w.get("solo", False)),
                 workamount_skill_mean_map={"n%s" % k: fl(v) for k, v in w.get("skills", {}).items()},
                 facility_skill_map={"fn%s" % k: fl(v) for k, v in w.get("fskills", {}).items()},
                 absence_time_list=list(w.get("abs", [])),
-                main_workplace_id=(None if w.get("mainwp") is None else "wp%d" % w["mainwp"]),
+                main_workplace_id=(None if w.get("mainwp") is None else I["wp"][w["mainwp"]]),
             )
             ws.append(wk)
             workers.append(wk)
-        team = BaseTeam("teamn%d" % ti, ID=(tid_fmt % ti), worker_list=ws)
+        if ext:
+            team = BaseTeam("teamn%d" % ti, ID=I["team"][ti])
+            for wk in ws:
+                team.add_worker(wk)
+        else:
+            team = BaseTeam("teamn%d" % ti, ID=I["team"][ti], worker_list=ws)
         teams.append(team)
     facs, wps = [], []
     for pi, wp in enumerate(case.get("wps", [])):
@@ -165,16 +251,23 @@ def build(case):
         for f in wp.get("facs", []):
             gi = len(facs)
             fc = BaseFacility(
-                "fn%d" % f.get("name", gi), ID=("w%d" if case.get("same_ids") else "f%d") % gi, workplace_id=(None if case.get("adopt_ids") else "wp%d" % pi),
+                "fn%d" % f.get("name", gi), ID=I["f"][gi], workplace_id=(None if case.get("adopt_ids") else I["wp"][pi]),
                 cost_per_time=fl(f.get("cost", "0")), solo_working=bool(f.get("solo", False)),
                 workamount_skill_mean_map={"n%s" % k: fl(v) for k, v in f.get("skills", {}).items()},
                 absence_time_list=list(f.get("abs", [])),
             )
             fs.append(fc)
             facs.append(fc)
-        wps.append(BaseWorkplace("wpn%d" % pi, ID="wp%d" % pi, facility_list=fs, max_space_size=fl(wp.get("cap", "1"))))
+        if ext:
+            wps.append(BaseWorkplace("wpn%d" % pi, ID=I["wp"][pi], max_space_size=fl(wp.get("cap", "1"))))
+            for fc in fs:
+                wps[-1].add_facility(fc)
+        else:
+            wps.append(BaseWorkplace("wpn%d" % pi, ID=I["wp"][pi], facility_list=fs, max_space_size=fl(wp.get("cap", "1"))))
     for pi, wp in enumerate(case.get("wps", [])):
-        for inp in wp.get("inputs", []):
+        if ext and not case.get("wp_oneside"):
+            wps[pi].extend_input_workplace_list([wps[inp] for inp in wp.get("inputs", [])])
+        for inp in ([] if ext and not case.get("wp_oneside") else wp.get("inputs", [])):
             if case.get("wp_oneside"):
                 wps[pi].input_workplace_list.append(wps[inp])      # BaseWorkplace(input_workplace_list=[...])
             else:
@@ -182,22 +275,44 @@ def build(case):
         for q in wp.get("out_only", []):
             wps[pi].output_workplace_list.append(wps[q])           # declared on the source's side only
         if wp.get("parent") is not None:
-            wps[pi].parent_workplace = wps[wp["parent"]]
+            if ext:
+                wps[pi].set_parent_workplace(wps[wp["parent"]])
+            else:
+                wps[pi].parent_workplace = wps[wp["parent"]]
     for ti, tm in enumerate(case.get("teams", [])):
         if tm.get("parent") is not None:
-            teams[ti].parent_team = teams[tm["parent"]]
+            if ext:
+                teams[ti].set_parent_team(teams[tm["parent"]])
+            else:
+                teams[ti].parent_team = teams[tm["parent"]]
     for i, t in enumerate(case["tasks"]):
         for tm in t.get("teams", []):
             if case["teams"][tm].get("oneside"):
                 teams[tm].targeted_task_list.append(tasks[i])      # what BaseTeam(targeted_task_list=[...]) gives
+            elif ext:
+                teams[tm].extend_targeted_task_list([tasks[i]])
             else:
                 teams[tm].append_targeted_task(tasks[i])
         for wp in t.get("wps", []):
-            wps[wp].append_targeted_task(tasks[i])
+            if ext:
+                wps[wp].extend_targeted_task_list([tasks[i]])
+            else:
+                wps[wp].append_targeted_task(tasks[i])
     b.tasks, b.comps, b.workers, b.teams, b.facs, b.wps = tasks, comps, workers, teams, facs, wps
+    b.ids = I
+    if special:
+        for kind, lst in I.items():
+            for i, x in enumerate(lst):
+                REG[(kind, x)] = i
+    if ext:
+        product, workflow = BaseProduct(), BaseWorkflow()
+        product.extend_child_component_list(comps)
+        workflow.extend_child_task_list(tasks)
+    else:
+        product, workflow = BaseProduct(comps), BaseWorkflow(tasks)
     b.project = BaseProject(
         init_datetime=INIT_DT, unit_timedelta=datetime.timedelta(seconds=case.get("unit", 60)),
-        product=BaseProduct(comps), workflow=BaseWorkflow(tasks),
+        product=product, workflow=workflow,
         organization=BaseOrganization(teams, wps))
     return b
 
@@ -205,6 +320,8 @@ def build(case):
 def idx_of(prefix, s):
     if s is None:
         return None
+    if (prefix, s) in REG:
+        return REG[(prefix, s)]            # "num" / "uuid" schemes (ints, 36-character strings: no clash with "t3")
     if prefix == "team" and s.startswith("wp"):        # cases with same_ids: team i and workplace i share the ID "wp<i>"
         return int(s[2:])
     if prefix == "f" and s.startswith("w") and not s.startswith("wp"):     # ... and facility i and worker i the ID "w<i>"
@@ -291,21 +408,23 @@ def structure_idx(project, fresh):
     num = {}
     k = fresh
     for t in wf.task_list:
-        if isinstance(t.ID, str) and t.ID.startswith("t") and t.ID[1:].isdigit():
+        if ("t", t.ID) in REG:
+            num[id(t)] = REG[("t", t.ID)]
+        elif isinstance(t.ID, str) and t.ID.startswith("t") and t.ID[1:].isdigit():
             num[id(t)] = int(t.ID[1:])
         else:
             num[id(t)] = k
             k += 1
     n = k
     by = {num[id(t)]: t for t in wf.task_list}
-    wps = {int(w.ID[2:]): w for w in org.workplace_list}
+    wps = {idx_of("wp", w.ID): w for w in org.workplace_list}
     return {
         "n": n,
         "task_list": [num[id(t)] for t in wf.task_list],
         "in": [[(num.get(id(e[0]), 9999), int(e[1])) for e in by[i].input_task_list] if i in by else [] for i in range(n)],
         "out": [[(num.get(id(e[0]), 9999), int(e[1])) for e in by[i].output_task_list] if i in by else [] for i in range(n)],
-        "wp_in": [[int(x.ID[2:]) for x in wps[j].input_workplace_list] if j in wps else [] for j in range(len(wps))],
-        "wp_out": [[int(x.ID[2:]) for x in wps[j].output_workplace_list] if j in wps else [] for j in range(len(wps))],
+        "wp_in": [[idx_of("wp", x.ID) for x in wps[j].input_workplace_list] if j in wps else [] for j in range(len(wps))],
+        "wp_out": [[idx_of("wp", x.ID) for x in wps[j].output_workplace_list] if j in wps else [] for j in range(len(wps))],
     }
 
 
@@ -345,6 +464,7 @@ def run_ops(case, want_snaps=True, ops=None, built=None):
        {"op":…, "snaps":[(step, phase, working, snap)], "dump":…, "exc":…, "warn":[…]}"""
     set_ranks(case)
     b = built or build(case)
+    apply_ranks(b)
     trace = []
     for oi, op in enumerate(ops if ops is not None else case["ops"]):
         rec = {"op": op, "snaps": [], "exc": None, "warn": []}
